@@ -190,6 +190,24 @@ func generatedBatchModels(r *rand.Rand) []*batchModel {
 		bytes: buildModel([]*onnx.NodeProto{nd("Add", []string{"x", "a"}, []string{"t1"}), nd("Mul", []string{"t1", "m"}, []string{"t2"}), nd("Sub", []string{"t2", "a"}, []string{"t3"}),
 			nd("Div", []string{"t3", "d"}, []string{"t4"}), nd("PRelu", []string{"t4", "sl"}, []string{"t5"}), nd("Abs", []string{"t5"}, []string{"y"})},
 			map[string]tensor.Tensor{"a": f32T(r, 1, 4), "m": f32T(r, 1, 2, 1), "d": tensor.New(tensor.WithShape(1), tensor.WithBacking([]float32{1.7})), "sl": f32T(r, 1, 4)}, []string{"x"}, []int{3}, []string{"y"})})
+	// 6b. shapes that coincide with the batch size: x (N,1) against a weight vector (M) broadcasts to (N,M)
+	// whatever N is (N = M included); x (N,T,1) against (T)
+	for _, M := range []int{2, 3, 5} {
+		M := M
+		add(&batchModel{name: fmt.Sprintf("column-times-vector-%d", M), inputs: []string{"x"}, inAxis: []int{0}, outputs: []string{"y"}, outAxis: []int{0},
+			mk: one(func(n int) []int { return []int{n, 1} }, 2),
+			bytes: buildModel([]*onnx.NodeProto{nd("Mul", []string{"x", "w"}, []string{"t"}), nd("Add", []string{"w", "t"}, []string{"y"})},
+				map[string]tensor.Tensor{"w": f32T(r, 1, M)}, []string{"x"}, []int{2}, []string{"y"})})
+	}
+	add(&batchModel{name: "sequence-column-times-vector", inputs: []string{"x"}, inAxis: []int{0}, outputs: []string{"y"}, outAxis: []int{0},
+		mk: one(func(n int) []int { return []int{n, 3, 1} }, 2),
+		bytes: buildModel([]*onnx.NodeProto{nd("Mul", []string{"x", "w"}, []string{"y"})},
+			map[string]tensor.Tensor{"w": f32T(r, 1, 3)}, []string{"x"}, []int{3}, []string{"y"})})
+	// 6c. MatMul with three leading dimensions (rank 5) against a weight matrix
+	add(&batchModel{name: "matmul5d", inputs: []string{"x"}, inAxis: []int{0}, outputs: []string{"y"}, outAxis: []int{0},
+		mk: one(func(n int) []int { return []int{n, 2, 3, 2, 4} }, 1),
+		bytes: buildModel([]*onnx.NodeProto{nd("MatMul", []string{"x", "w"}, []string{"a"}), nd("Add", []string{"a", "b"}, []string{"y"})},
+			map[string]tensor.Tensor{"w": f32T(r, 1, 4, 3), "b": f32T(r, 1, 3)}, []string{"x"}, []int{5}, []string{"y"})})
 	// 7. softmax over a non-batch axis
 	for _, sm := range []string{"Softmax", "LogSoftmax"} {
 		sm := sm
